@@ -492,10 +492,13 @@ func rolloverIsolation(res *core.Result, r *rand.Rand) {
 	mk := func() (*side, bool) {
 		s := &side{p: env.NewPair(r, "c02 rollover")}
 		h := &state.EncryptionSessionTestHelper{EncryptionSession: s.p.AB.Encryption()}
-		h.ReglSetOut(0xFFFFFFFF - uint32(1+r.IntN(3)))
-		for i := 0; i < 8; i++ {
-			mt := []frame.MessageType{frame.SessionData, frame.NetworkTraffic, frame.RouterCtrl}[i%3]
-			if i < 5 {
+		h.ReglSetOut(0xFFFFFFFF - uint32(4+r.IntN(3)))
+		for i := 0; i < 14; i++ {
+			// priority and regular frames before the wrap, regular frames across it, all classes after it
+			mt := []frame.MessageType{frame.SessionData, frame.NetworkTraffic, frame.RouterCtrl, frame.SessionCtrl}[i%4]
+			if i < 3 {
+				mt = []frame.MessageType{frame.RouterCtrl, frame.SessionCtrl, frame.RouterCtrl}[i]
+			} else if i < 10 {
 				mt = frame.SessionData // regular class: crosses the wrap
 			}
 			f, err := s.p.A.BuilderV.NewFrameV1(s.p.A.IdentityV.IP, s.p.B.IdentityV.IP, mt, nil, []byte("c02 rollover payload"), nil)
@@ -520,7 +523,7 @@ func rolloverIsolation(res *core.Result, r *rand.Rand) {
 				res.Violate("roundtrip-fails:across-rollover", fmt.Sprintf("frame %d sealed across the regular counter wrap does not unseal at its receiver: %v", i, uerr), nil)
 				return nil, false
 			}
-			if i >= 5 {
+			if i >= 10 {
 				s.after = append(s.after, data)
 			}
 		}
